@@ -172,6 +172,33 @@ func Run(r *mc.Run) {
 			return true
 		})
 
+	// epochs over the whole range of the field (values a caller builds as structs; the parser's limit is C03's business)
+	var ext []V3
+	for _, e := range []uint{0, 1, 2, 1 << 31, 1 << 32, 1 << 62, 1<<63 - 1, 1 << 63, 1<<63 + 1, ^uint(0) - 1, ^uint(0)} {
+		for _, u := range []string{"0", "1"} {
+			ext = append(ext, V3{e, u, ""}, V3{e, u, "1"})
+		}
+	}
+	r.Scenario("epoch-extremes-all-triples", map[string]interface{}{"values": len(ext), "epochs": "0 1 2 2^31 2^32 2^62 2^63-1 2^63 2^63+1 2^64-2 2^64-1", "upstream": "0 1", "revisions": "'' 1"},
+		len(ext), func(i int, st *mc.Stats) bool {
+			for j := range ext {
+				for k := range ext {
+					st.Evals++
+					if i != j && j != k && i != k {
+						st.Nontrivial++
+					}
+					if v := checkTriple("epoch-extremes-all-triples", TripleIn{ext[i], ext[j], ext[k]}); v != nil {
+						st.Violate(v)
+						st.Class("law-broken:" + v.Clause)
+					}
+				}
+				st.Class(fmt.Sprintf("ab=%d", sign(version.Compare(ext[i].ver(), ext[j].ver()))))
+			}
+			st.States++
+			st.Transitions += int64(len(ext)) * int64(len(ext))
+			return true
+		})
+
 	// sorting: all sequences of length <= L over a 12-element set with equal-but-different spellings
 	set := []V3{{0, "1.0", ""}, {0, "1.00", ""}, {0, "1.0", "0"}, {0, "1.0~rc1", ""}, {0, "1.0+b1", ""}, {0, "1.0a", ""},
 		{0, "1.0", "1"}, {0, "1.0.", ""}, {1, "0.1", ""}, {0, "1.0~~", ""}, {0, "9", ""}, {0, "10", ""},
